@@ -167,6 +167,28 @@ DedupSubmodules(evs, seen) ==
        ELSE <<e>> \o DedupSubmodules(Tail(evs), seen)
 Expected(inst, opts) == DedupSubmodules(NsEvs(inst, <<>>, opts.top, opts.ignore, opts.ser), {})
 
+\* BOOST_CLASS_EXPORT section (serialization on): one export per class that has a serialize / serializable member,
+\* in registration order; a class whose C++ name contains a comma is exported through a typedef
+\* (Lex.stripped[cpp] = cpp without the characters , : < > and blank; Lex.hascomma[cpp])
+RECURSIVE SerClasses(_, _, _, _)
+SerClasses(items, nspath, top, ignore) ==
+  IF ~PartialMatch(nspath, top) THEN <<>>
+  ELSE FlatSeq([i \in 1..Len(items) |->
+         LET d == items[i] IN
+         CASE d.k = "namespace" -> SerClasses(d.items, nspath \o <<d.name>>, top, ignore)
+           [] d.k = "class" /\ Len(nspath) >= Len(top) /\ ~InSeq(d.cpp, ignore)
+              /\ (\E j \in 1..Len(d.methods) : d.methods[j].cpp \in {"serialize", "serializable"}
+                  \/ \E j2 \in 1..Len(d.statics) : d.statics[j2].cpp \in {"serialize", "serializable"}) -> <<d.cpp>>
+           [] OTHER -> <<>>])
+RECURSIVE Dedup(_, _)
+Dedup(s, seen) == IF s = <<>> THEN <<>> ELSE IF Head(s) \in seen THEN Dedup(Tail(s), seen) ELSE <<Head(s)>> \o Dedup(Tail(s), seen \cup {Head(s)})
+ExportLines(inst, opts) ==
+  IF ~opts.ser THEN <<>>
+  ELSE FlatSeq([i \in 1..Len(Dedup(SerClasses(inst, <<>>, opts.top, opts.ignore), {})) |->
+         LET c == Dedup(SerClasses(inst, <<>>, opts.top, opts.ignore), {})[i] IN
+         IF Lex.hascomma[c] THEN << "typedef " \o c \o " " \o Lex.stripped[c] \o ";", "BOOST_CLASS_EXPORT(" \o Lex.stripped[c] \o ")" >>
+         ELSE << "BOOST_CLASS_EXPORT(" \o c \o ")" >>])
+
 RECURSIVE Includes(_, _, _)
 Includes(items, nspath, top) ==
   IF ~PartialMatch(nspath, top) THEN <<>>
